@@ -240,6 +240,18 @@ func streamHFuzz(t *testing.T, o *Out) {
 	}
 }
 
+// hfuzzCyclicOPL: a traverse over a relation whose types reach a cycle of SubjectSet types.
+const hfuzzCyclicOPL = `import { Namespace, SubjectSet, Context } from "@ory/keto-namespace-types"
+class User implements Namespace {}
+class Group implements Namespace {
+  related: { members: (User | SubjectSet<Group, "members">)[] }
+}
+class Doc implements Namespace {
+  related: { viewers: (User | SubjectSet<Group, "members">)[] }
+  permits = { view: (ctx: Context): boolean => this.related.viewers.traverse((g) => g.related.members.includes(ctx.subject)) }
+}
+`
+
 func randName(r *rand.Rand) string {
 	return pick(r, []string{"a", "b", "alice", "bob", "g", "x y", "ü", "a:b#c@d", "(p)"})
 }
@@ -471,7 +483,7 @@ func (f *fuzzEnv) fire(r *rand.Rand, e, m string) (class string) {
 		b, _ := json.Marshal(ds)
 		return rest(f.write, method("PATCH"), relationtuple.WriteRouteBase, url.Values{}, mutBody(b), false)
 	case "s-syntax":
-		doc := hcheckOPL
+		doc := pick(r, []string{hcheckOPL, hcheckOPL, hfuzzCyclicOPL})
 		switch m {
 		case "empty-strings":
 			doc = ""
@@ -551,7 +563,7 @@ func (f *fuzzEnv) fire(r *rand.Rand, e, m string) (class string) {
 		_, err := f.rt.DeleteRelationTuples(f.ctx, req)
 		return grpcClass(err)
 	case "g-syntax":
-		doc := hcheckOPL
+		doc := pick(r, []string{hcheckOPL, hcheckOPL, hfuzzCyclicOPL})
 		switch m {
 		case "empty-strings":
 			doc = ""
